@@ -265,7 +265,8 @@ class MemEngine(object):
                           ("A%d" % [1, 3, 8, 16, 21][t.draw(5)], 0)][t.draw(5)]
             if unit == 0:
                 unit = int(code[1:])
-                count = 1
+                # (also arrays of fixed-size strings)
+                count = [1, 1, 1, 2, 3][t.draw(5)]
             else:
                 count = [1, 1, 2, 5][t.draw(4)]
                 off = (off + unit - 1) // unit * unit
